@@ -175,6 +175,8 @@ func (w *tpWorld) exec(r *hx.Run, f []string) string {
 	switch f[0] {
 	case "codec":
 		return w.bufs.setFlavour(f[1])
+	case "store":
+		return w.fs.setFlavour(f[1])
 	case "init":
 		w.base.Delete(tvKey)
 		w.initHas, w.initRaw = false, nil
@@ -449,6 +451,9 @@ func genTP(rng *hx.Rng) []string {
 	ops := []string{"tp init " + init}
 	if rng.Bool() {
 		ops = append([]string{"tp codec scratch"}, ops...)
+	}
+	if rng.Chance(2, 5) {
+		ops = append([]string{"tp store " + hx.Pick(rng, []string{"wrapped", "fmt"})}, ops...)
 	}
 	haveA, haveG := false, false
 	vals := []string{"0", "1", "2", "7", "41", "18446744073709551614", "18446744073709551615"}
